@@ -25,10 +25,15 @@ from typing import Any, Dict, List, Optional
 from engine.absint import Absint
 from engine.events import EventsDomain, EvState
 from engine.index import AnalysisError, Program, Unknown, unparse, walk_no_nested
-from engine.peval import Evaluator, Ret
+from engine.peval import Evaluator, Raised, Ret
 from engine.report import Report, mk_finding
 
 from .common import receive_config
+
+def re_sub_digits(t: str) -> str:
+    import re
+    return re.sub(r"\d+", "N", t)
+
 
 PROP = "C18"
 SS = "rtcrtpreceiver.StreamStatistics"
@@ -128,37 +133,90 @@ def run(rep: Report, prog: Program, tier: str) -> None:
     rep.discharged += n_ok
     rep.samples.extend(sub.samples[:2])
 
-    # ---- C18-FRACTION
-    rep.rule("C18-FRACTION", "fraction_lost against RFC 3550 A.3 over a grid", min_instances=40)
+    # ---- C18-FRACTION: black box - a StreamStatistics object is built by its own __init__, fed through add(), and fraction_lost is read once per report interval
+    rep.rule("C18-FRACTION", "fraction_lost against RFC 3550 A.3 over a grid of (expected, received) per interval, and past the saturation of the cumulative loss", min_instances=40)
     fl = prog.func(SS + ".fraction_lost")
-    for e in range(0, 8):
-        for r in range(0, 10):
-            env = {"self": type("S", (), {})()}
-            s = env["self"]
-            s.packets_expected = 100 + e
-            s._expected_prior = 100
-            s.packets_received = 50 + r
-            s._received_prior = 50
-            ev = Evaluator(prog, mod, prog.cls(SS), env)
-            try:
-                try:
-                    ev.exec_block(fl.node.body)
-                    got = None
-                except Ret as rr:
-                    got = rr.value
-            except Unknown as u:
-                raise AnalysisError(f"cannot evaluate fraction_lost: {u}")
-            lost = e - r
-            want = 0 if e == 0 or lost <= 0 else (lost << 8) // e
-            cell = f"expected_interval={e}, received_interval={r}"
-            bad = got != want or (r >= 1 and not (0 <= got <= 255))
-            upd = s._expected_prior == 100 + e and s._received_prior == 50 + r
-            if bad or not upd:
-                rep.fail(mk_finding(prog, PROP, "C18-FRACTION", fl, fl.node,
-                                    f"{cell}: fraction_lost gives {got}, RFC 3550 A.3 gives {want}" + ("" if upd else "; the prior counters are not updated"),
-                                    construct=f"fraction_lost {cell}"))
-            else:
-                rep.ok("C18-FRACTION", f"fraction_lost {cell}", sample=f"= {got}")
+    from types import SimpleNamespace as _NSF
+
+    from .objhook import make_hook as _mkf
+    _clk = [1000.0]
+
+    def _exf(call, ev):
+        if unparse(call.func) == "time.time":
+            return _clk[0]
+        return NotImplemented
+    ohf = _mkf(prog, _exf)
+    evf = Evaluator(prog, mod, None, {}, ohf)
+    s_add = prog.func(SS + ".add")
+
+    def _feed(ss, seq):
+        _clk[0] += 0.02
+        ohf.run_method(s_add, ss, [_NSF(sequence_number=seq % 65536, timestamp=(seq * 160) % (1 << 32))], {})
+
+    def _fraction(ss):
+        return ohf.getattr(ss, "fraction_lost") if fl.kind == "property" else ohf.run_method(fl, ss, [], {})
+    try:
+        for e in range(0, 8):
+            for r in range(0, 10):
+                cell = f"expected_interval={e}, received_interval={r}"
+                ss = ohf.instantiate(prog.cls(SS), [], dict(clockrate=8000), evf)
+                seq = 65530            # the first interval crosses a sequence wrap: 12 expected, 9 received
+                for k in range(12):
+                    if k not in (3, 4, 8):
+                        _feed(ss, seq + k)
+                first = _fraction(ss)
+                top = seq + 11
+                # second interval: e new sequence numbers of which min(e, r) arrive (the newest always does when r >= 1), plus r - e duplicates of old packets
+                if e and r:
+                    keep = list(range(1, r)) + [e] if r < e else list(range(1, e + 1))
+                    for k in keep:
+                        _feed(ss, top + k)
+                    for k in range(max(0, r - e)):
+                        _feed(ss, top + 1)
+                    got_r = len(keep) + max(0, r - e)
+                elif r:                 # nothing new expected: only duplicates arrive
+                    for k in range(r):
+                        _feed(ss, top)
+                    got_r = r
+                else:
+                    got_r = 0           # (e > 0, r == 0 cannot be produced: expected only moves when a packet arrives)
+                    if e:
+                        rep.ok("C18-FRACTION", f"fraction_lost {cell}", sample="not producible")
+                        continue
+                got = _fraction(ss)
+                lost = e - got_r
+                want = 0 if e == 0 or lost <= 0 else (lost << 8) // e
+                want_first = (3 << 8) // 12
+                if first != want_first:
+                    rep.fail(mk_finding(prog, PROP, "C18-FRACTION", fl, fl.node, f"first interval across a sequence wrap (12 expected, 9 received): fraction_lost gives {first}, RFC 3550 A.3 gives {want_first}",
+                                        construct="fraction_lost first interval"))
+                elif got != want or not (0 <= got <= 255):
+                    rep.fail(mk_finding(prog, PROP, "C18-FRACTION", fl, fl.node, f"{cell}: fraction_lost gives {got}, RFC 3550 A.3 gives {want}", construct=f"fraction_lost {cell}"))
+                else:
+                    rep.ok("C18-FRACTION", f"fraction_lost {cell}", sample=f"= {got}")
+        # cumulative loss beyond the 24-bit field: the per-interval fraction still follows A.3 (the interval counts are not saturated)
+        ss = ohf.instantiate(prog.cls(SS), [], dict(clockrate=8000), evf)
+        stride, per = 0x4000, 32
+        wrong = None
+        n_reports = 0
+        for k in range(per * 20):
+            _feed(ss, 5 + k * stride)
+            if k % per == per - 1:
+                got = _fraction(ss)
+                n_reports += 1
+                e_int = per * stride if n_reports > 1 else (per - 1) * stride + 1
+                want = ((e_int - per) << 8) // e_int
+                if got != want and wrong is None:
+                    wrong = (n_reports, got, want, ohf.getattr(ss, "packets_lost"))
+        if wrong:
+            rep.fail(mk_finding(prog, PROP, "C18-FRACTION", fl, fl.node, f"one packet in {stride} arrives, a report every {per} packets: report #{wrong[0]} (cumulative loss field {wrong[3]}) has fraction_lost {wrong[1]}, RFC 3550 A.3 gives {wrong[2]}",
+                                construct="fraction_lost after the cumulative loss saturates"))
+        else:
+            rep.ok("C18-FRACTION", "fraction_lost while the cumulative loss passes 2^23", sample=f"{n_reports} reports, final cumulative loss field {ohf.getattr(ss, 'packets_lost')}")
+    except Unknown as u:
+        raise AnalysisError(f"cannot evaluate fraction_lost: {u}")
+    except Raised as ex_:
+        rep.fail(mk_finding(prog, PROP, "C18-FRACTION", fl, getattr(ex_, "node", None), f"feeding the statistics / reading fraction_lost raises {ex_.name}", construct=f"fraction_lost raises {ex_.name}"))
 
     # ---- C18-WIDTH
     rep.rule("C18-WIDTH", "packed report fields fit their formats", min_instances=4)
@@ -352,6 +410,9 @@ def run(rep: Report, prog: Program, tier: str) -> None:
 
     def make_seq(kind: str, seq0: int, ts0: int = 0):
         pk = []
+        if kind == "arrival clock crosses a multiple of 2^32 ticks":
+            t0 = (1 << 32) * 3 / CLOCK - 0.25
+            pk = [(seq0 + i, 160 * i, t0 + 0.02 * i + (0.003 if i % 4 == 2 else 0.0)) for i in range(30)]
         if kind == "in order, steady":
             pk = [(seq0 + i, 160 * i, 0.02 * i) for i in range(30)]
         elif kind == "in order, jittered arrival":
@@ -372,7 +433,7 @@ def run(rep: Report, prog: Program, tier: str) -> None:
         elif kind == "several frames per timestamp":
             pk = [(seq0 + i, 3000 * (i // 3), 0.011 * i) for i in range(30)]
         return [(s % 65536, (t + ts0) % (1 << 32), n) for s, t, n in pk]
-    for kind, seq0 in itertools.product(("in order, steady", "in order, jittered arrival", "losses", "duplicates and late copies", "late copy of the newest packet", "two sequence wraps in large strides", "timestamps in decoding order (not monotonic)", "several frames per timestamp"), (7, 65500)):
+    for kind, seq0 in itertools.product(("in order, steady", "in order, jittered arrival", "losses", "duplicates and late copies", "late copy of the newest packet", "two sequence wraps in large strides", "timestamps in decoding order (not monotonic)", "several frames per timestamp", "arrival clock crosses a multiple of 2^32 ticks"), (7, 65500)):
         arr = make_seq(kind, seq0, 0 if seq0 == 7 else (1 << 32) - 1000)
         # the reference works on unwrapped numbers
         unwrapped = []
@@ -412,6 +473,70 @@ def run(rep: Report, prog: Program, tier: str) -> None:
             names = ("packets received", "extended highest sequence", "packets expected", "cumulative lost", "jitter")
             diff_ = [f"{names[k]} {got[bad][k]} (reference {want2[bad][k]})" for k in range(5) if got[bad][k] != want2[bad][k]]
             rep.fail(mk_finding(prog, PROP, "C18-REF", sadd, sadd.node, f"[{label}] after packet #{bad}: " + ", ".join(diff_), construct="statistics: " + names[[k for k in range(5) if got[bad][k] != want2[bad][k]][0]]))
+
+    # ---- C18-RRCOUNT: one round of _run_rtcp with many remote streams - an RTCP packet has a 5-bit report count
+    rep.rule("C18-RRCOUNT", "a round of _run_rtcp reports every remote stream exactly once in packets of at most 31 report blocks, each of which serialises and parses back", min_instances=4)
+    loops_w = [n for n in ast.walk(run_rtcp.node) if isinstance(n, ast.While)]
+    if len(loops_w) != 1:
+        raise AnalysisError("_run_rtcp: the reporting loop (while) was not found")
+    round_body = [st for st in loops_w[0].body if not (isinstance(st, ast.Expr) and isinstance(st.value, ast.Await) and "sleep" in unparse(st.value))]
+    for n_streams in (1, 31, 32, 70, 300):
+        label = f"{n_streams} remote streams"
+        sent: List[Any] = []
+        clock = [50.0]
+
+        def exr(call, ev, sent=sent, clock=clock):
+            nm = unparse(call.func)
+            if nm == "time.time":
+                return clock[0]
+            if nm == "self._send_rtcp":
+                sent.append(ev.ev(call.args[0]))
+                return None
+            if nm in ("self.__log_debug", "random.random"):
+                return 0.5
+            return NotImplemented
+        ohr = _mk(prog, exr)
+        evr = _Ev2(prog, prog.modules["rtcrtpreceiver"], None, {}, ohr)
+        try:
+            streams = {}
+            for k in range(n_streams):
+                st_ = ohr.instantiate(SSC, [], dict(clockrate=CLOCK), evr)
+                ohr.run_method(sadd, st_, [_NS2(sequence_number=k, timestamp=0)], {})
+                streams[7000 + k] = st_
+            me = _NS2(__cls__=run_rtcp.cls)
+            setattr(me, "__remote_streams", streams)
+            setattr(me, "__lsr", {})
+            setattr(me, "__lsr_time", {})
+            setattr(me, "__rtcp_ssrc", 99)
+            evw = _Ev2(prog, run_rtcp.module, run_rtcp.cls, {"self": me}, ohr)
+            evw.exec_block(round_body)
+            problems = []
+            seen: List[int] = []
+            for pkt in sent:
+                blocks = list(getattr(pkt, "reports", []))
+                if len(blocks) > 31:
+                    problems.append(f"one receiver report carries {len(blocks)} report blocks; the count field has 5 bits")
+                raw = ohr.run_method(prog.find_method(pkt.__cls__, "__bytes__"), pkt, [], {})
+                from .objhook import ClassRef as _CR2
+                try:
+                    back = ohr.run_method(rtcp_parse, _CR2(prog.cls("rtp.RtcpPacket")), [raw], {})
+                except _R2 as ex_:
+                    problems.append(f"a receiver report with {len(blocks)} blocks cannot be parsed by the peer ({ex_.name})")
+                    continue
+                got_ssrcs = [b.ssrc for p_ in back for b in getattr(p_, "reports", [])]
+                if got_ssrcs != [b.ssrc for b in blocks]:
+                    problems.append(f"a receiver report with {len(blocks)} blocks parses back with {len(got_ssrcs)}")
+                seen += [b.ssrc for b in blocks]
+            if sorted(seen) != sorted(streams):
+                problems.append(f"{len(set(seen))} of {n_streams} streams reported, {len(seen) - len(set(seen))} twice")
+            if problems:
+                rep.fail(mk_finding(prog, PROP, "C18-RRCOUNT", run_rtcp, loops_w[0], f"[{label}] " + "; ".join(problems[:2]), construct="report count: " + re_sub_digits(problems[0])[:70]))
+            else:
+                rep.ok("C18-RRCOUNT", label, sample=f"{len(sent)} packet(s)")
+        except _R2 as ex_:
+            rep.fail(mk_finding(prog, PROP, "C18-RRCOUNT", run_rtcp, getattr(ex_, "node", None), f"[{label}] a reporting round raises {ex_.name}: the RTCP task ends", construct=f"report round raises {ex_.name}"))
+        except _U2 as ex_:
+            raise AnalysisError(f"C18-RRCOUNT cannot evaluate [{label}]: {ex_}")
 
     # ---- C18-WIRE: the statistics of a stream count what arrived on that stream's SSRC - a retransmission arriving on the RTX SSRC is counted there, under its own
     # sequence number, and never credited to the media stream (that would make every repaired loss disappear from the loss figures)
